@@ -23,7 +23,7 @@ REQUIRED_OBS = {'eval:C06:real:Lsv=-L0vv': 20, 'eval:C06:real:L1vv=0': 20, 'eval
 CASE_TIMEOUT = 900
 QUICK = [('fcc', 1), ('bcc', 1), ('hcp', 1), ('square', 1), ('honey', 1), ('omega', 1), ('diamond', 1), ('tria', 1),
          ('lieb', 1), ('dtria', 1), ('rumpled', 1), ('b2', 1), ('fcc', 2), ('honey', 2), ('sc', 1), ('kagome', 1),
-         ('tric', 1), ('p4m', 1), ('p2', 1), ('mono2', 1)]
+         ('tric', 1), ('p4m', 1), ('p2', 1), ('mono2', 1), ('dhcp', 1), ('omega_perm', 1)]
 THOROUGH = QUICK + [('l12', 1), ('tet', 1), ('rect', 1), ('bcc', 2), ('sc', 2), ('hcp', 2), ('tria', 2), ('dtria', 2),
                     ('square', 2), ('lieb', 2), ('diamond', 2)]
 
